@@ -1191,6 +1191,11 @@ class Fn:
             path = c.get('rpath') or c['path']
             gen = c['path']
             out = ('call', path, args, gen, c.get('full', ''))
+            full_ = c.get('full', '') or ''
+            m_ = re.match(r'^<(.+) as std::convert::Into<std::option::Option<(.+)>>>::into$', full_) or \
+                re.match(r'^<std::option::Option<(.+)> as std::convert::From<(.+)>>::from$', full_)
+            if m_ and m_.group(1) == m_.group(2) and len(args) == 1:
+                return ('agg', 'std::option::Option::Some', [('0', args[0])])      # `x.into()` where an Option<T> is wanted: Some(x)
             if path == 'anyhow::__private::not' and len(args) == 1:
                 return ('un', 'Not', args[0])       # `ensure!(c, ..)` is `if !c { bail!(..) }`
             if path in _uncalled(self.prog) and depth < 200:
@@ -1660,7 +1665,7 @@ def _uncalled(P):
     return P._unc
 
 
-def ctor_value(P, e, depth=0):
+def ctor_value(P, e, depth=0, any_plain=False):
     """a call of a constructor / builder method of the crate that the pinned code never calls (`Function::new(..)
     .with_arguments(..)`, `Region::field(..)`, `ItemStateResolved::new(..)`) is a new spelling of a struct literal: the value it
     constructs, in the caller's terms — an aggregate, or the receiver with some fields replaced.  None when the callee is not a
@@ -1670,9 +1675,11 @@ def ctor_value(P, e, depth=0):
     if e[3].endswith('default::Default::default') and not e[2] and len(e) > 4:
         m = re.match(r'^<(.*) as std::default::Default>::default$', e[4] or '')
         return default_value(P, m.group(1)) if m else None
-    if e[1] not in P.fns or e[1] not in _uncalled(P):
+    if e[1] not in P.fns or (e[1] not in _uncalled(P) and not any_plain):
         return None
     H = P.fns[e[1]]
+    if any_plain and e[1] not in _uncalled(P) and (H.kind == 'Closure' or re.sub(r'<.*$', '', H.raw.get('output', '')) not in P.adts):
+        return None
     if H.loops() or H.switches() or len(H.exits()) != 1 or len(e[2]) != H.nargs:
         return None
     args = [_ctor_norm(P, a, depth + 1) for a in e[2]]
@@ -1698,6 +1705,7 @@ def ctor_value(P, e, depth=0):
         return ('update', base, sorted(upd[v[1]].items()))
     if upd:
         return None
+    v = _into_option(H, v, e[4] if len(e) > 4 else '')
     res = _std_conv_free(simplify(subst_args(v, args)))
     # nested constructor calls (Self::default(), other builders) inside the constructed value
     def inner(x):
@@ -1707,6 +1715,45 @@ def ctor_value(P, e, depth=0):
                 return r_
         return x
     return simplify(map_tree(res, inner))
+
+
+def _split_generics(full):
+    m = re.search(r'::<(.*)>$', full or '')
+    if not m:
+        return []
+    out, depth, cur = [], 0, ''
+    for ch in m.group(1):
+        if ch in '<([':
+            depth += 1
+        elif ch in '>)]':
+            depth -= 1
+        if ch == ',' and depth == 0:
+            out.append(cur.strip())
+            cur = ''
+        else:
+            cur += ch
+    if cur.strip():
+        out.append(cur.strip())
+    return out
+
+
+def _into_option(H, v, full):
+    """`param.into()` for a parameter `impl Into<Option<T>>`: Some(param) when the call site passes a T, param itself when it passes
+    an Option<T> (the concrete types are the generic arguments of the constructor call)"""
+    gargs = _split_generics(full)
+    impls = [i for i, t in enumerate(H.raw.get('inputs', [])) if str(t).startswith('impl ')]
+    if not gargs or len(gargs) < len(impls):
+        return v
+    conc = {i + 1: gargs[len(gargs) - len(impls) + k] for k, i in enumerate(impls)}
+
+    def one(x):
+        if x and x[0] == 'call' and len(x) > 3 and str(x[3]).endswith('convert::Into::into') and len(x[2]) == 1 and strip(x[2][0])[0] == 'arg':
+            i = strip(x[2][0])[1]
+            pty = str(H.raw.get('inputs', [])[i - 1]) if 1 <= i <= len(H.raw.get('inputs', [])) else ''
+            if re.match(r'^impl (std::convert::)?Into<(std::option::)?Option<', pty) and i in conc and not conc[i].startswith('std::option::Option<'):
+                return ('agg', 'std::option::Option::Some', [('0', x[2][0])])
+        return x
+    return map_tree(v, one)
 
 
 def ctor_norm(P, e):
@@ -2224,6 +2271,49 @@ def value_table(fn, e, depth=0):
         X = e0[2][0]
         return [([(('discr', X), 'Some')], ('payload', X, 'Some', 0)), ([(('discr', X), 'None')], e0[2][1])]
     return [([], e0)]
+
+
+def field_table(fn, e, field, depth=0):
+    """decision table of one field of a struct value that is built with the crate's constructors and then adjusted by builder
+    calls (`r = R::field(..); if c { r = r.with_doc(d) }`): [(conditions, field value)].  A builder call on the value itself that
+    does not touch the field contributes nothing; one that does contributes its value under its own conditions.  None when a
+    definition cannot be read as a struct."""
+    P = fn.prog
+    rows = []
+    e0 = strip(e)
+    for conds, v in value_table(fn, e0):
+        selfref = isinstance(v, tuple) and v and v[0] == 'self-referential'
+        ve = ctor_norm(P, expand(fn, v[1] if selfref else v, keep=(lambda ty, e0=e0: False)))
+        ve = strip(ve)
+        if ve[0] == 'call' and ve[1] in P.fns:
+            # a plain constructor that the pinned code calls too (Region::unnamed_field): its value, for this table only
+            cv = ctor_value(P, ve, any_plain=True)
+            if cv is not None:
+                ve = strip(cv)
+        if ve[0] == 'update':
+            base = strip(ve[1])
+            upd = dict(ve[2])
+            if selfref and (base == e0 or (base[0] == 'var' and e0[0] == 'var' and base[1] == e0[1])):
+                if field in upd:
+                    rows.append((conds, upd[field]))
+                continue
+            if field in upd:
+                rows.append((conds, upd[field]))
+                continue
+            if depth < 3:
+                sub = field_table(fn, base, field, depth + 1)
+                if sub is None:
+                    return None
+                rows += [(conds + c2, v2) for c2, v2 in sub]
+                continue
+            return None
+        if selfref:
+            return None
+        if ve[0] == 'agg' and field in dict(ve[2]):
+            rows.append((conds, dict(ve[2])[field]))
+            continue
+        return None
+    return rows
 
 
 def unmodified_clone(fn, e, type_frag):
